@@ -244,7 +244,7 @@ Theorem C14_edge_dict_not_json_safe_example :
 Proof. exact edge_dict_not_json_safe. Qed.
 
 (* ===================================================================================================== *)
-(* 5. Refutations (each witness, replayed on the implementation, is a finding)                            *)
+(* 5. Refutations (each witness, replayed on the implementation, is a finding) and repaired defects          *)
 (* ===================================================================================================== *)
 (* F15: GaussianKDE(bw_method=0.3): to_dict stores only the dataset *)
 Theorem C14_roundtrip_kde_options_refuted :
@@ -273,28 +273,34 @@ Theorem C14_roundtrip_studentt_constant_refuted :
     rt s = Ok s' /\ observe_s s' <> observe_s s /\
     s_const s = Some (JNum (10000003 # 10)) /\ s_const s' = Some (JNum (-1571)).
 Proof. exact roundtrip_studentt_constant_refuted. Qed.
-(* F5 seen through the round trip: [fit const; fit X] keeps the degenerate overrides, the copy drops them *)
-Theorem C14_roundtrip_observe_stale_overrides_refuted :
+(* F5 (fixed: a non-constant fit clears the degenerate overrides): [fit const; fit X] now round-trips with
+   unchanged behaviour - kept as a positive theorem; a regression is reported by the oracle under the F5: key *)
+Theorem C14_roundtrip_observe_after_refit :
   exists s s', s = sst (sfit (srun (fresh FGaussian) [Stub.Xc]) Stub.X1 []) /\
-    rt s = Ok s' /\ to_dict_scipy s' = to_dict_scipy s /\ observe_s s' <> observe_s s /\
-    sm_cdf (observe_s s) = ObsConst QCdf (Some (JNum 3)) /\
+    rt s = Ok s' /\ to_dict_scipy s' = to_dict_scipy s /\ observe_s s' = observe_s s /\
+    sm_cdf (observe_s s) = ObsScipy QCdf FGaussian [("loc", JNum 4); ("scale", JNum (3 # 2))] /\
     sm_cdf (observe_s s') = ObsScipy QCdf FGaussian [("loc", JNum 4); ("scale", JNum (3 # 2))].
-Proof. exact roundtrip_observe_stale_overrides_refuted. Qed.
+Proof. exact roundtrip_observe_after_refit_fixed. Qed.
 (* np.std underflows to 0 on non-constant data: the copy is degenerate, the original is not *)
 Theorem C14_roundtrip_gaussian_underflow_refuted :
   exists s s', s = sst (fit_scipy sfit_0 Stub.tg_opt Stub.tolist Stub.resample (fresh FGaussian) Stub.X1 []) /\
     rt s = Ok s' /\ s_ov s = no_ov /\ s_ov s' = all_ov /\ observe_s s' <> observe_s s.
 Proof. exact roundtrip_gaussian_underflow_refuted. Qed.
-(* F24: from_dict / load called on a SUBCLASS in a fresh interpreter *)
-Theorem C14_subclass_from_dict_refuted : forall th ta,
-  from_dict_biv bworld0 (Some Frank) (biv_dict Frank th ta) = (mkBW false [Frank] false, Err AttributeErr).
-Proof. exact subclass_from_dict_refuted. Qed.
-Theorem C14_subclass_from_dict_history_dependent : forall th ta,
+(* F24 (fixed: from_dict builds through the base-class factory): from_dict / load called on a SUBCLASS is the
+   generic entry point, in every class-cache state; a regression is reported by the oracle under the F24: key *)
+Theorem C14_dispatch_subclass_entry : forall w c j, from_dict_biv w (Some c) j = from_dict_biv w None j.
+Proof. exact subclass_from_dict_fixed. Qed.
+Theorem C14_subclass_from_dict_roundtrip : forall w c t th ta, t <> Independence ->
+  from_dict_biv w (Some c) (biv_dict t th ta)
+  = (mkBW true (bw_own_empty w) (bw_indep_imported w), Ok (mkB (Some t) th ta None true)).
+Proof. exact subclass_from_dict_roundtrip. Qed.
+Theorem C14_subclass_from_dict_history_independent : forall th ta,
+  from_dict_biv bworld0 (Some Frank) (biv_dict Frank th ta) = (mkBW true [] false, Ok (mkB (Some Frank) th ta None true)) /\
   from_dict_biv (mkBW true [Frank] false) (Some Frank) (biv_dict Frank th ta)
-  = (mkBW true [Frank] false, Err AttributeErr) /\
+  = (mkBW true [Frank] false, Ok (mkB (Some Frank) th ta None true)) /\
   from_dict_biv (mkBW true [Frank] false) (Some Clayton) (biv_dict Frank th ta)
-  = (mkBW true [Frank] false, Ok (mkB (Some Frank) th ta None false)).
-Proof. exact subclass_from_dict_history_dependent. Qed.
+  = (mkBW true [Frank] false, Ok (mkB (Some Frank) th ta None true)).
+Proof. exact subclass_from_dict_history_independent. Qed.
 (* Independence is a member of CopulaTypes but its module is not imported by the package *)
 Theorem C14_dispatch_independence_refuted : forall th ta,
   new_biv bworld0 None [("copula_type", JStr "independence")] = (mkBW true [] false, Ok None) /\
@@ -397,7 +403,7 @@ Theorem C14_keys_biv :
   same_set gen_biv_from_dict_reads gen_biv_to_dict = true /\
   forallb (fun k => is_keyerr (snd (from_dict_biv bworld0 None (remove_key k bdict)))) gen_biv_from_dict_reads = true /\
   same_set gen_biv_from_dict_sets ["theta"; "tau"] = true /\
-  gen_biv_to_dict_checks_fit = false /\ gen_biv_save_json = true /\
+  gen_biv_to_dict_checks_fit = false /\ gen_biv_save_json = true /\ gen_biv_from_dict_via_base = true /\
   (* the package imports the three Archimedean modules and NOT independence *)
   gen_biv_package_imports = map (fun t => match rsplit_dot (ctype_module t) with Some (_, m) => m | None => "" end)
                                 (base_subclasses bworld0).
@@ -485,9 +491,9 @@ Print Assumptions C14_roundtrip_kde_options_refuted.
 Print Assumptions C14_roundtrip_kde_weights_refuted.
 Print Assumptions C14_roundtrip_kde_hidden_state_refuted.
 Print Assumptions C14_roundtrip_studentt_constant_refuted.
-Print Assumptions C14_roundtrip_observe_stale_overrides_refuted.
+Print Assumptions C14_roundtrip_observe_after_refit.
 Print Assumptions C14_roundtrip_gaussian_underflow_refuted.
-Print Assumptions C14_subclass_from_dict_refuted.
+Print Assumptions C14_dispatch_subclass_entry.
 Print Assumptions C14_dispatch_independence_refuted.
 Print Assumptions C14_dispatch_multivariate_vine_refuted.
 Print Assumptions C14_keys_fit.
